@@ -2,7 +2,7 @@
     tables and queries the harness ran processRewrites / CheckHost on. *)
 From Coq Require Export String.
 From Coq Require Import NArith List.
-From AGH Require Import Base.Run Model.Rewrites Model.RewritesEdit.
+From AGH Require Import Base.Run Model.Rewrites Model.RewritesEdit Model.RewritesCache.
 Import ListNotations.
 Local Open Scope N_scope.
 
@@ -45,6 +45,11 @@ Inductive case :=
   | CEdit (orc : list (string * (bool * N))) (qn : list string) (q3 : N)
           (init : list (string * string)) (s0 : sobs)
           (steps : list (xop * N * sobs))
+  (* the same kind of table served by a dnsforward.Server with the DNS cache
+     ON: ONE history of queries (name, qtype, observed response) against one
+     server, first questions and their repetitions *)
+  | CCache (enabled : bool) (tbl : list (string * string * option (bool * N)))
+           (qs : list (string * N * robs))
   (* the same table, served by a dnsforward.Server with the scripted
      upstream [ups]; queries: name, qtype, observed response *)
   | CResp (enabled : bool) (tbl : list (string * string * option (bool * N)))
@@ -104,15 +109,16 @@ Definition query_ok (enabled : bool) (t : list entry) (q : string * N * obs * ob
 (** The scripted upstream of the response harness (c06rUpstream in Go), by
     the suffix of the lower-cased name asked: ".down" the exchange fails;
     ".example" NXDOMAIN, ".fail" SERVFAIL, ".nodata" NOERROR, all three with
-    an empty answer section; ".multi" two address records; else one A
-    9.9.9.9 / one AAAA 2001:db8::9 for the name asked, nothing for other
-    types. *)
+    an empty answer section; ".multi" two address records and one TXT
+    record for a TXT question; else one A 9.9.9.9 / one AAAA 2001:db8::9 for
+    the name asked, nothing for other types. *)
 Definition ups (name : bytes) (qt : N) : option (N * list rr) :=
   let l := to_lower name in
   if has_suffix l (bs ".down") then None
   else if has_suffix l (bs ".example") then Some (3, [])
   else if has_suffix l (bs ".fail") then Some (2, [])
   else if has_suffix l (bs ".nodata") then Some (0, [])
+  else if (qt =? 16) && has_suffix l (bs ".multi") then Some (0, [RR_OTHER name 16])   (* TXT *)
   else if qt =? qA then
     Some (0, RR_A name 151587081 ::                                          (* 9.9.9.9 *)
              (if has_suffix l (bs ".multi") then [RR_A name 151587082] else []))
@@ -160,6 +166,17 @@ Definition robs_ok (m : option (bool * response)) (o : robs) : bool :=
 
 Definition rquery_ok (enabled : bool) (t : list entry) (q : string * N * robs) : bool :=
   let '(h, qt, o) := q in robs_ok (respond_e isort ups enabled t (bs h) qt) o.
+
+(** ** The cache history: the cache state is threaded through the queries. *)
+Fixpoint cache_ok (enabled : bool) (t : list entry) (c : cache) (qs : list (string * N * robs)) : bool :=
+  match qs with
+  | [] => true
+  | (h, qt, o) :: rest =>
+      match respond_c isort ups enabled t c (bs h) qt with
+      | None => match o with RTimeout => true | _ => false end
+      | Some (c', m) => robs_ok (Some m) o && cache_ok enabled t c' rest
+      end
+  end.
 
 (** ** Edit histories *)
 
@@ -224,6 +241,7 @@ Definition edit_ok orc qn q3 (init : list (string * string)) s0 steps : bool :=
 Definition case_ok (c : case) : bool :=
   match c with
   | CEdit orc qn q3 init s0 steps => edit_ok orc qn q3 init s0 steps
+  | CCache en tbl qs => cache_ok en (table tbl) [] qs
   | CResp en tbl qs => let t := table tbl in forallb (rquery_ok en t) qs
   | CTab en tbl qs => let t := table tbl in forallb (query_ok en t) qs
   end.
@@ -264,6 +282,26 @@ Fixpoint explain_steps (parse : bytes -> option ip) (qs : list (bytes * N)) (tbl
       explain_steps parse qs tbl' rest
   end.
 
+(** Replay of a cache history: per query (agrees, (rcode (+100 when the
+    handler failed), question name, []), (upstream calls, first name asked,
+    addresses)); the cache state is threaded as in [cache_ok]. *)
+Fixpoint explain_cache (enabled : bool) (t : list entry) (c : cache) (qs : list (string * N * robs)) :=
+  match qs with
+  | [] => []
+  | (h, qt, o) :: rest =>
+      match respond_c isort ups enabled t c (bs h) qt with
+      | None => [(match o with RTimeout => true | _ => false end, (9, [], @nil (bool * N)), (0, @nil N, @nil (bool * N)))]
+      | Some (c', (f, p)) =>
+          (robs_ok (Some (f, p)) o,
+           (rp_rcode p + (if f then 100 else 0), rp_qname p, @nil (bool * N)),
+           (N.of_nat (List.length (rp_upstream p)),
+            match rp_upstream p with x :: _ => fst x | [] => [] end,
+            map (fun r => match r with RR_A _ v => (true, v) | RR_AAAA _ v => (false, v)
+                                   | _ => (false, 0) end) (rp_answer p)))
+          :: explain_cache enabled t c' rest
+      end
+  end.
+
 Definition explain (c : case) :=
   match c with
   | CEdit orc qn q3 init s0 steps =>
@@ -271,6 +309,7 @@ Definition explain (c : case) :=
       let qs := edit_queries qn q3 in
       let tbl := load parse (map mk_pair init) in
       explain_point qs tbl true 0 s0 ++ explain_steps parse qs tbl steps
+  | CCache en tbl qs => explain_cache en (table tbl) [] qs
   | CResp en tbl qs =>
       let t := table tbl in
       map (fun q : string * N * robs =>
